@@ -22,7 +22,8 @@ RULE = ("cases = zoo crystal x supercell x NAC (none|Wang|Gonze-Lee) x full/comp
         "a set of 10 requests (q-points with/without direction, band, mesh, single-q, Gamma with directions) issued in two orders on one object: same answers per request; "
         "four segments in one call (A->Gamma, Gamma->B, B->C, C->Gamma) vs each segment alone, vs the dynamical-matrix object (NAC direction = segment direction at Gamma) and D e = lambda e, "
         "Mesh and IterMesh, dynamical_matrix.run, get_frequencies*, get_dynamical_matrix_at_q; yaml/hdf5 of qpoints, band and mesh parsed back; "
-        "non-trivial = more than one band and max|D|>0; distinct = (crystal, smat, pmat, nac, layout, build)")
+        "non-trivial = more than one band and max|D|>0; distinct = (crystal, smat, pmat, nac, layout, build); "
+        "additions of rounds 6-8: dynamical-matrix block of qpoints.yaml / qpoints.hdf5 read back; arrays of the first request re-read at the very end")
 ASSUMPTIONS = [
     "eigenvalues are compared (sign*nu^2/factor^2), not frequencies, to avoid the sqrt amplification at acoustic modes; eigenvectors only through D e = lambda e and projectors",
     "printed precision is measured from the written text (number of decimals of each field)",
